@@ -3,7 +3,7 @@ import json, os
 from .. import family, mapcase, findings
 
 PROPS_FILES = ['theories/Props/C01.v']
-FINDINGS_FILES = ['theories/Findings/C01.v']
+FINDINGS_FILES = ['theories/Findings/C01.v', 'theories/Findings/Recorded.v']
 LEVEL = 'proof'
 TRUSTED = ['Model/Spec.v: the reading of the generation rules (hand-written specification)',
            'Model/Engine.v, Model/Mapping.v, Model/Data.v: hand-written model of materializer.py / mapping_parser.py, tied to the code by the correspondence on every run',
